@@ -264,6 +264,49 @@ type savedFile struct {
 var saved []savedFile
 var savedSeen = map[string]bool{}
 
+// fileVsTable compares the lease file on disk with the allocated leases the handler holds (client id, MAC, address and
+// expiry instant): "" when the file is save(table).
+func fileVsTable(w *c11.World, file, when string) string {
+	now, err := os.ReadFile(file)
+	if err != nil {
+		return fmt.Sprintf("%s the lease file cannot be read: %v", when, err)
+	}
+	dec := dhcp.VerifDecode(now)
+	if dec.Err || dec.Net1 == nil || dec.Net2 == nil {
+		return when + " the lease file does not decode or lacks the subnet sections"
+	}
+	type rec struct {
+		mac    string
+		ip     netip.Addr
+		expiry time.Time
+	}
+	got := map[string]rec{}
+	for _, l := range dec.Leases {
+		got[string(l.CID)] = rec{string(l.MAC), l.IP, l.Expiry}
+	}
+	n := 0
+	for _, l := range w.H.VerifDump().Leases {
+		if l.State != 2 {
+			continue
+		}
+		n++
+		g, ok := got[string(l.CID)]
+		switch {
+		case !ok:
+			return fmt.Sprintf("%s the lease file lacks the allocated lease of client %x (%s)", when, l.CID, l.IP)
+		case g.mac != string(l.MAC) || g.ip != l.IP:
+			return fmt.Sprintf("%s the lease file holds %s / mac %x for client %x, the server %s / mac %x", when, g.ip, g.mac, l.CID, l.IP, l.MAC)
+		case !g.expiry.Equal(l.Expiry):
+			return fmt.Sprintf("%s the lease file holds a stale expiry for client %x (%s): file %s, server %s (difference %s): the file was not rewritten",
+				when, l.CID, l.IP, g.expiry.UTC().Format(time.RFC3339Nano), l.Expiry.UTC().Format(time.RFC3339Nano), l.Expiry.Sub(g.expiry))
+		}
+	}
+	if n != len(dec.Leases) {
+		return fmt.Sprintf("%s the lease file holds %d records for %d allocated leases", when, len(dec.Leases), n)
+	}
+	return ""
+}
+
 func evalRestart(c *core.Ctx, f []string) *core.Case {
 	cfgIdx, mode, ok := parseCfg(f[1])
 	if !ok {
@@ -285,7 +328,20 @@ func evalRestart(c *core.Ctx, f []string) *core.Case {
 	if err != nil {
 		return nil
 	}
-	_, led := c11.RunOn(w, ops)
+	// "rewritten after every ACK": right after a step that sent an ACK the file on disk must be save(table) for the
+	// table in memory (Model/Dhcp4File.save): exactly the allocated leases, each with the expiry the server holds —
+	// compared as instants, not on the canonical clock (a renewal moves the expiry by the real time that passed)
+	ackSaveProblem := ""
+	_, led := c11.RunOnEach(w, ops, func(st *c11.Step) {
+		acked := false
+		for _, rp := range st.Replies {
+			acked = acked || rp.Type == 5
+		}
+		if !acked || ackSaveProblem != "" {
+			return
+		}
+		ackSaveProblem = fileVsTable(w, file, fmt.Sprintf("after the ACK of step %q", st.Op.String()))
+	})
 	data, rerr := os.ReadFile(file)
 	var capt [][]byte
 	for _, m := range w.S.VerifCaptured() {
@@ -331,6 +387,9 @@ func evalRestart(c *core.Ctx, f []string) *core.Case {
 		}
 		if saveProblem != "" {
 			return saveProblem, ""
+		}
+		if ackSaveProblem != "" {
+			return ackSaveProblem, ""
 		}
 		have := map[bindingT]bool{}
 		byIP := map[uint32]int{}
@@ -380,6 +439,11 @@ func evalRestart(c *core.Ctx, f []string) *core.Case {
 			}
 			if !lan.Contains(c11.Addr(ip)) {
 				continue // the client changed capture state since the ACK: its next request is NAKed before and after restart alike
+			}
+			// two hours later (still inside the lease period the last ACK announced): a restarted server that loaded an
+			// older expiry than the one it acknowledged refuses this renewal
+			if b.Expiry-2*c11.Hour > c11.NowH*c11.Hour {
+				r.world.H.VerifAge(b.CID, 2*time.Hour)
 			}
 			renew := &c11.Op{Kind: "request", CHAddr: b.MAC, XID: []byte{8, 8, 8, 8}, CIAddr: ip, Src: ip}
 			if !bytes.Equal(b.CID, b.MAC) {
@@ -726,6 +790,50 @@ func Gen(c *core.Ctx) {
 		}
 		if cs := Eval(c, fmt.Sprintf("dhcp.restart %d:%d %s", cfgIdx, mode, strings.Join(parts, ";"))); cs != nil {
 			cs.Class = "restart-populated"
+			c.Add(*cs)
+		}
+	}
+	// renewed populations: a client obtains a lease, hours pass, it extends the lease (renew / rebind / init-reboot /
+	// select again), possibly more than once, then the server restarts: the file must carry the EXTENDED lease
+	for k := 0; k < c.Scale(27, 108); k++ {
+		cfgIdx := k % c11.NumBase
+		mode := 1 + (k/c11.NumBase)%3
+		variant := (k / 9) % 4
+		m := c11.Mac(k % 3)
+		host := c11.Cfgs[cfgIdx].Host.AsSlice()
+		var parts []string
+		if k%2 == 1 && cfgIdx != 2 {
+			parts = append(parts, (&c11.Op{Kind: "capture", MAC: m}).String())
+		}
+		d := &c11.Op{Kind: "discover", CHAddr: m, XID: []byte{0xb1, 0, 0, byte(k)}}
+		if k%4 == 3 {
+			d.CID = append([]byte{1}, m...)
+		}
+		parts = append(parts, d.String())
+		offer := peekOffer(cfgIdx, mode, fmt.Sprintf("dhcp.restart %d:%d %s", cfgIdx, mode, strings.Join(parts, ";")), m)
+		if offer == 0 {
+			continue
+		}
+		sel := &c11.Op{Kind: "request", CHAddr: m, XID: d.XID, CID: d.CID, Srv: host, Req: c11.Addr(offer).AsSlice()}
+		parts = append(parts, sel.String())
+		cid := sel.ClientID()
+		for round := 0; round <= k%2; round++ {
+			parts = append(parts, (&c11.Op{Kind: "age", CID: cid, Hours: int64(1 + (k+round)%3)}).String())
+			ext := &c11.Op{Kind: "request", CHAddr: m, XID: []byte{0xb2, 0, byte(round), byte(k)}, CID: d.CID}
+			switch variant {
+			case 0: // renewing
+				ext.CIAddr, ext.Src = offer, offer
+			case 1: // rebinding
+				ext.CIAddr, ext.Src = offer, 0xffffffff
+			case 2: // init-reboot
+				ext.Req = c11.Addr(offer).AsSlice()
+			default: // select again
+				ext.Srv, ext.Req = host, c11.Addr(offer).AsSlice()
+			}
+			parts = append(parts, ext.String())
+		}
+		if cs := Eval(c, fmt.Sprintf("dhcp.restart %d:%d %s", cfgIdx, mode, strings.Join(parts, ";"))); cs != nil {
+			cs.Class = "restart-renewed"
 			c.Add(*cs)
 		}
 	}
